@@ -5,22 +5,51 @@ import (
 	"go/types"
 )
 
+// Object ids: [1, nbase) are objects of the post-init base state (shared, read-only
+// slice e.baseObjs; per-path copies live in st.over), ids >= nbase are path-local.
+
 // alloc creates a zeroed object of size bytes.
 func (st *State) alloc(size *T, typ types.Type, name string) int {
 	o := &Object{Size: size, Typ: typ, Name: name, owner: st.id}
 	st.objs = append(st.objs, o)
-	return len(st.objs) - 1
+	return st.nbase + len(st.objs) - 1
 }
 
 func (st *State) allocN(size int64, typ types.Type, name string) int {
 	return st.alloc(st.e.k64(size), typ, name)
 }
 
+// newObj returns the freshly allocated (still owned) object id for in-place initialisation.
+func (st *State) newObj(id int) *Object { return st.objs[id-st.nbase] }
+
 func (st *State) obj(id int) *Object {
-	if id <= 0 || id >= len(st.objs) {
+	if id > 0 && id < st.nbase {
+		if o, ok := st.over[id]; ok {
+			return o
+		}
+		return st.e.baseObjs[id]
+	}
+	k := id - st.nbase
+	if id <= 0 || k >= len(st.objs) {
 		st.unsupported("bad object id %d", id)
 	}
-	return st.objs[id]
+	return st.objs[k]
+}
+
+func (st *State) setObj(id int, o *Object) {
+	if id < st.nbase {
+		if !st.overOwn {
+			m := make(map[int]*Object, len(st.over)+4)
+			for k, v := range st.over {
+				m[k] = v
+			}
+			st.over = m
+			st.overOwn = true
+		}
+		st.over[id] = o
+		return
+	}
+	st.objs[id-st.nbase] = o
 }
 
 // wobj returns a writable (owned) copy of object id.
@@ -42,7 +71,7 @@ func (st *State) wobj(id int) *Object {
 		m.entries = append([]mapEntry(nil), o.Map.entries...)
 		n.Map = &m
 	}
-	st.objs[id] = &n
+	st.setObj(id, &n)
 	return &n
 }
 
